@@ -41,6 +41,10 @@ type Stub struct {
 	Nv int
 	Nb map[int][]int
 	Mv int
+	// the vertices with at least one edge, when there are few of them (so that Neighbours of a
+	// graph with 10^9 vertices costs a few comparisons)
+	few   []int
+	fewOK bool
 }
 
 func NewStub(n int, es []Edge) *Stub {
@@ -58,6 +62,12 @@ func NewStub(n int, es []Edge) *Stub {
 			}
 		}
 	}
+	if len(g.Nb) <= 16 {
+		g.fewOK = true
+		for v := range g.Nb {
+			g.few = append(g.few, v)
+		}
+	}
 	return g
 }
 func (g *Stub) N() int { return g.Nv }
@@ -70,7 +80,17 @@ func (g *Stub) IsEdge(i, j int) bool {
 	}
 	return false
 }
-func (g *Stub) Neighbours(v int) []int { return g.Nb[v] }
+func (g *Stub) Neighbours(v int) []int {
+	if g.fewOK {
+		for _, u := range g.few {
+			if u == v {
+				return g.Nb[v]
+			}
+		}
+		return nil
+	}
+	return g.Nb[v]
+}
 func (g *Stub) Degrees() []int {
 	d := make([]int, g.Nv)
 	for v, l := range g.Nb {
